@@ -579,3 +579,330 @@ macro_rules! jv_fx_try_join {
         $crate::__futures::try_join!($($e),+)
     }};
 }
+
+/// async joiner that awaits its arguments ONE AFTER THE OTHER (for the task-spawning macros: the
+/// tasks themselves must still run concurrently)
+#[macro_export]
+macro_rules! jv_aseq {
+    ($e0:expr, $e1:expr) => {{
+        $crate::joiners::enter(2);
+        $crate::joiners::mark(0);
+        let __f0 = $crate::joiners::atag(0, $e0);
+        $crate::joiners::mark(1);
+        let __f1 = $crate::joiners::atag(1, $e1);
+        $crate::joiners::leave();
+        let __r0 = __f0.await;
+        let __r1 = __f1.await;
+        (__r0, __r1,)
+    }};
+    ($e0:expr, $e1:expr, $e2:expr) => {{
+        $crate::joiners::enter(3);
+        $crate::joiners::mark(0);
+        let __f0 = $crate::joiners::atag(0, $e0);
+        $crate::joiners::mark(1);
+        let __f1 = $crate::joiners::atag(1, $e1);
+        $crate::joiners::mark(2);
+        let __f2 = $crate::joiners::atag(2, $e2);
+        $crate::joiners::leave();
+        let __r0 = __f0.await;
+        let __r1 = __f1.await;
+        let __r2 = __f2.await;
+        (__r0, __r1, __r2,)
+    }};
+    ($e0:expr, $e1:expr, $e2:expr, $e3:expr) => {{
+        $crate::joiners::enter(4);
+        $crate::joiners::mark(0);
+        let __f0 = $crate::joiners::atag(0, $e0);
+        $crate::joiners::mark(1);
+        let __f1 = $crate::joiners::atag(1, $e1);
+        $crate::joiners::mark(2);
+        let __f2 = $crate::joiners::atag(2, $e2);
+        $crate::joiners::mark(3);
+        let __f3 = $crate::joiners::atag(3, $e3);
+        $crate::joiners::leave();
+        let __r0 = __f0.await;
+        let __r1 = __f1.await;
+        let __r2 = __f2.await;
+        let __r3 = __f3.await;
+        (__r0, __r1, __r2, __r3,)
+    }};
+    ($e0:expr, $e1:expr, $e2:expr, $e3:expr, $e4:expr) => {{
+        $crate::joiners::enter(5);
+        $crate::joiners::mark(0);
+        let __f0 = $crate::joiners::atag(0, $e0);
+        $crate::joiners::mark(1);
+        let __f1 = $crate::joiners::atag(1, $e1);
+        $crate::joiners::mark(2);
+        let __f2 = $crate::joiners::atag(2, $e2);
+        $crate::joiners::mark(3);
+        let __f3 = $crate::joiners::atag(3, $e3);
+        $crate::joiners::mark(4);
+        let __f4 = $crate::joiners::atag(4, $e4);
+        $crate::joiners::leave();
+        let __r0 = __f0.await;
+        let __r1 = __f1.await;
+        let __r2 = __f2.await;
+        let __r3 = __f3.await;
+        let __r4 = __f4.await;
+        (__r0, __r1, __r2, __r3, __r4,)
+    }};
+    ($e0:expr, $e1:expr, $e2:expr, $e3:expr, $e4:expr, $e5:expr) => {{
+        $crate::joiners::enter(6);
+        $crate::joiners::mark(0);
+        let __f0 = $crate::joiners::atag(0, $e0);
+        $crate::joiners::mark(1);
+        let __f1 = $crate::joiners::atag(1, $e1);
+        $crate::joiners::mark(2);
+        let __f2 = $crate::joiners::atag(2, $e2);
+        $crate::joiners::mark(3);
+        let __f3 = $crate::joiners::atag(3, $e3);
+        $crate::joiners::mark(4);
+        let __f4 = $crate::joiners::atag(4, $e4);
+        $crate::joiners::mark(5);
+        let __f5 = $crate::joiners::atag(5, $e5);
+        $crate::joiners::leave();
+        let __r0 = __f0.await;
+        let __r1 = __f1.await;
+        let __r2 = __f2.await;
+        let __r3 = __f3.await;
+        let __r4 = __f4.await;
+        let __r5 = __f5.await;
+        (__r0, __r1, __r2, __r3, __r4, __r5,)
+    }};
+    ($e0:expr, $e1:expr, $e2:expr, $e3:expr, $e4:expr, $e5:expr, $e6:expr) => {{
+        $crate::joiners::enter(7);
+        $crate::joiners::mark(0);
+        let __f0 = $crate::joiners::atag(0, $e0);
+        $crate::joiners::mark(1);
+        let __f1 = $crate::joiners::atag(1, $e1);
+        $crate::joiners::mark(2);
+        let __f2 = $crate::joiners::atag(2, $e2);
+        $crate::joiners::mark(3);
+        let __f3 = $crate::joiners::atag(3, $e3);
+        $crate::joiners::mark(4);
+        let __f4 = $crate::joiners::atag(4, $e4);
+        $crate::joiners::mark(5);
+        let __f5 = $crate::joiners::atag(5, $e5);
+        $crate::joiners::mark(6);
+        let __f6 = $crate::joiners::atag(6, $e6);
+        $crate::joiners::leave();
+        let __r0 = __f0.await;
+        let __r1 = __f1.await;
+        let __r2 = __f2.await;
+        let __r3 = __f3.await;
+        let __r4 = __f4.await;
+        let __r5 = __f5.await;
+        let __r6 = __f6.await;
+        (__r0, __r1, __r2, __r3, __r4, __r5, __r6,)
+    }};
+    ($e0:expr, $e1:expr, $e2:expr, $e3:expr, $e4:expr, $e5:expr, $e6:expr, $e7:expr) => {{
+        $crate::joiners::enter(8);
+        $crate::joiners::mark(0);
+        let __f0 = $crate::joiners::atag(0, $e0);
+        $crate::joiners::mark(1);
+        let __f1 = $crate::joiners::atag(1, $e1);
+        $crate::joiners::mark(2);
+        let __f2 = $crate::joiners::atag(2, $e2);
+        $crate::joiners::mark(3);
+        let __f3 = $crate::joiners::atag(3, $e3);
+        $crate::joiners::mark(4);
+        let __f4 = $crate::joiners::atag(4, $e4);
+        $crate::joiners::mark(5);
+        let __f5 = $crate::joiners::atag(5, $e5);
+        $crate::joiners::mark(6);
+        let __f6 = $crate::joiners::atag(6, $e6);
+        $crate::joiners::mark(7);
+        let __f7 = $crate::joiners::atag(7, $e7);
+        $crate::joiners::leave();
+        let __r0 = __f0.await;
+        let __r1 = __f1.await;
+        let __r2 = __f2.await;
+        let __r3 = __f3.await;
+        let __r4 = __f4.await;
+        let __r5 = __f5.await;
+        let __r6 = __f6.await;
+        let __r7 = __f7.await;
+        (__r0, __r1, __r2, __r3, __r4, __r5, __r6, __r7,)
+    }};
+}
+
+
+/// sequentially awaiting try joiner (returns at the first Err)
+#[macro_export]
+macro_rules! jv_atryseq {
+    ($e0:expr, $e1:expr) => {{
+        $crate::joiners::enter(2);
+        $crate::joiners::mark(0);
+        let __f0 = $crate::joiners::atag(0, $e0);
+        $crate::joiners::mark(1);
+        let __f1 = $crate::joiners::atag(1, $e1);
+        $crate::joiners::leave();
+        async move {
+            let __r0 = __f0.await?;
+            let __r1 = __f1.await?;
+            Ok((__r0, __r1,))
+        }
+        .await
+    }};
+    ($e0:expr, $e1:expr, $e2:expr) => {{
+        $crate::joiners::enter(3);
+        $crate::joiners::mark(0);
+        let __f0 = $crate::joiners::atag(0, $e0);
+        $crate::joiners::mark(1);
+        let __f1 = $crate::joiners::atag(1, $e1);
+        $crate::joiners::mark(2);
+        let __f2 = $crate::joiners::atag(2, $e2);
+        $crate::joiners::leave();
+        async move {
+            let __r0 = __f0.await?;
+            let __r1 = __f1.await?;
+            let __r2 = __f2.await?;
+            Ok((__r0, __r1, __r2,))
+        }
+        .await
+    }};
+    ($e0:expr, $e1:expr, $e2:expr, $e3:expr) => {{
+        $crate::joiners::enter(4);
+        $crate::joiners::mark(0);
+        let __f0 = $crate::joiners::atag(0, $e0);
+        $crate::joiners::mark(1);
+        let __f1 = $crate::joiners::atag(1, $e1);
+        $crate::joiners::mark(2);
+        let __f2 = $crate::joiners::atag(2, $e2);
+        $crate::joiners::mark(3);
+        let __f3 = $crate::joiners::atag(3, $e3);
+        $crate::joiners::leave();
+        async move {
+            let __r0 = __f0.await?;
+            let __r1 = __f1.await?;
+            let __r2 = __f2.await?;
+            let __r3 = __f3.await?;
+            Ok((__r0, __r1, __r2, __r3,))
+        }
+        .await
+    }};
+    ($e0:expr, $e1:expr, $e2:expr, $e3:expr, $e4:expr) => {{
+        $crate::joiners::enter(5);
+        $crate::joiners::mark(0);
+        let __f0 = $crate::joiners::atag(0, $e0);
+        $crate::joiners::mark(1);
+        let __f1 = $crate::joiners::atag(1, $e1);
+        $crate::joiners::mark(2);
+        let __f2 = $crate::joiners::atag(2, $e2);
+        $crate::joiners::mark(3);
+        let __f3 = $crate::joiners::atag(3, $e3);
+        $crate::joiners::mark(4);
+        let __f4 = $crate::joiners::atag(4, $e4);
+        $crate::joiners::leave();
+        async move {
+            let __r0 = __f0.await?;
+            let __r1 = __f1.await?;
+            let __r2 = __f2.await?;
+            let __r3 = __f3.await?;
+            let __r4 = __f4.await?;
+            Ok((__r0, __r1, __r2, __r3, __r4,))
+        }
+        .await
+    }};
+    ($e0:expr, $e1:expr, $e2:expr, $e3:expr, $e4:expr, $e5:expr) => {{
+        $crate::joiners::enter(6);
+        $crate::joiners::mark(0);
+        let __f0 = $crate::joiners::atag(0, $e0);
+        $crate::joiners::mark(1);
+        let __f1 = $crate::joiners::atag(1, $e1);
+        $crate::joiners::mark(2);
+        let __f2 = $crate::joiners::atag(2, $e2);
+        $crate::joiners::mark(3);
+        let __f3 = $crate::joiners::atag(3, $e3);
+        $crate::joiners::mark(4);
+        let __f4 = $crate::joiners::atag(4, $e4);
+        $crate::joiners::mark(5);
+        let __f5 = $crate::joiners::atag(5, $e5);
+        $crate::joiners::leave();
+        async move {
+            let __r0 = __f0.await?;
+            let __r1 = __f1.await?;
+            let __r2 = __f2.await?;
+            let __r3 = __f3.await?;
+            let __r4 = __f4.await?;
+            let __r5 = __f5.await?;
+            Ok((__r0, __r1, __r2, __r3, __r4, __r5,))
+        }
+        .await
+    }};
+    ($e0:expr, $e1:expr, $e2:expr, $e3:expr, $e4:expr, $e5:expr, $e6:expr) => {{
+        $crate::joiners::enter(7);
+        $crate::joiners::mark(0);
+        let __f0 = $crate::joiners::atag(0, $e0);
+        $crate::joiners::mark(1);
+        let __f1 = $crate::joiners::atag(1, $e1);
+        $crate::joiners::mark(2);
+        let __f2 = $crate::joiners::atag(2, $e2);
+        $crate::joiners::mark(3);
+        let __f3 = $crate::joiners::atag(3, $e3);
+        $crate::joiners::mark(4);
+        let __f4 = $crate::joiners::atag(4, $e4);
+        $crate::joiners::mark(5);
+        let __f5 = $crate::joiners::atag(5, $e5);
+        $crate::joiners::mark(6);
+        let __f6 = $crate::joiners::atag(6, $e6);
+        $crate::joiners::leave();
+        async move {
+            let __r0 = __f0.await?;
+            let __r1 = __f1.await?;
+            let __r2 = __f2.await?;
+            let __r3 = __f3.await?;
+            let __r4 = __f4.await?;
+            let __r5 = __f5.await?;
+            let __r6 = __f6.await?;
+            Ok((__r0, __r1, __r2, __r3, __r4, __r5, __r6,))
+        }
+        .await
+    }};
+    ($e0:expr, $e1:expr, $e2:expr, $e3:expr, $e4:expr, $e5:expr, $e6:expr, $e7:expr) => {{
+        $crate::joiners::enter(8);
+        $crate::joiners::mark(0);
+        let __f0 = $crate::joiners::atag(0, $e0);
+        $crate::joiners::mark(1);
+        let __f1 = $crate::joiners::atag(1, $e1);
+        $crate::joiners::mark(2);
+        let __f2 = $crate::joiners::atag(2, $e2);
+        $crate::joiners::mark(3);
+        let __f3 = $crate::joiners::atag(3, $e3);
+        $crate::joiners::mark(4);
+        let __f4 = $crate::joiners::atag(4, $e4);
+        $crate::joiners::mark(5);
+        let __f5 = $crate::joiners::atag(5, $e5);
+        $crate::joiners::mark(6);
+        let __f6 = $crate::joiners::atag(6, $e6);
+        $crate::joiners::mark(7);
+        let __f7 = $crate::joiners::atag(7, $e7);
+        $crate::joiners::leave();
+        async move {
+            let __r0 = __f0.await?;
+            let __r1 = __f1.await?;
+            let __r2 = __f2.await?;
+            let __r3 = __f3.await?;
+            let __r4 = __f4.await?;
+            let __r5 = __f5.await?;
+            let __r6 = __f6.await?;
+            let __r7 = __f7.await?;
+            Ok((__r0, __r1, __r2, __r3, __r4, __r5, __r6, __r7,))
+        }
+        .await
+    }};
+}
+
+/// pass-through joiners for programs whose values are not harness tokens (C19 bounds stage)
+#[macro_export]
+macro_rules! jv_pjoin {
+    ($($e:expr),+ $(,)?) => {
+        $crate::__futures::join!($($e),+)
+    };
+}
+#[macro_export]
+macro_rules! jv_ptry {
+    ($($e:expr),+ $(,)?) => {
+        $crate::__futures::try_join!($($e),+)
+    };
+}
